@@ -223,7 +223,7 @@ def lib_proofs(ns):
     P['from_compressed'] = f'''
   funext bs
   unfold Sm9.Gen.{ns}.from_compressed Sm9.Api.{g}FromCompressed
-  simp only [liftNew_eq, and_one_eq, getD0]
+  simp only [liftNew_eq, and_one_eq, getD0, not_decide_eq_bne, decide_eq_beq', bool_bne_comm, bool_beq_comm]
   grind'''
     P['to_slice'] = f'''
   funext p
